@@ -466,7 +466,7 @@ func (i *interpreter) decide(c *Term) bool {
 	}
 	// both sides feasible (or unknown): fork
 	alt := append(append([]decision{}, r.trace...), decision{Kind: 'b', V: 0})
-	r.alts = append(r.alts, pathSpec{alt})
+	i.ex.push([]pathSpec{{alt}})
 	r.trace = append(r.trace, decision{Kind: 'b', V: 1})
 	if m1 != nil {
 		i.setModel(m1)
@@ -556,7 +556,7 @@ func (i *interpreter) choose(n int, what string) int {
 	}
 	for k := n - 1; k >= 1; k-- {
 		alt := append(append([]decision{}, r.trace...), decision{Kind: 'c', N: n, V: uint64(k), What: what})
-		r.alts = append(r.alts, pathSpec{alt})
+		i.ex.push([]pathSpec{{alt}})
 	}
 	r.trace = append(r.trace, decision{Kind: 'c', N: n, V: 0, What: what})
 	r.choices = append(r.choices, 0)
